@@ -230,6 +230,19 @@ CHECKS = {
         TRUSTED + "; yield points cover the template cache only; memoised helper grids and the default backend are reached through real threaded runs",
         "DESIGN.md 4/C10",
     ),
+    "C14": (
+        "model_checking",
+        "spec/Simulator.tla places every template voxel in exact doubled-integer coordinates (template centre at the "
+        "molecule position, clipping at the volume boundary) and characterises the historical even-axis half-pixel defect; "
+        "TLC checks grid coincidence and the exactly-once paste law on every case and emits, per molecule, the exact list of "
+        "(tomogram voxel, template voxel) contributions for odd/even/non-cubic templates, interior/straddling/outside poses, "
+        "Rot24 orientations, one or two molecules in one or two components, orders 0/1/3 and three scales. Replay on "
+        "TomogramSimulator: exact paste, additivity and order independence, clipping, load-back through SubtomogramLoader, and "
+        "simulate_2d = z-projection.",
+        "TLA+ spec Simulator.tla model-checked by TLC; emitted exact voxel contributions replayed against TomogramSimulator and the loader",
+        TRUSTED + "; only grid-coincident poses carry an exact expectation",
+        "DESIGN.md 4/C14",
+    ),
 }
 
 REASON_TODO = "check not built yet in this round (planned: see DESIGN.md section 4)"
